@@ -303,7 +303,8 @@ Definition groups_ok (rl : list (option Z * Z)) (gs : list group) : bool :=
   list_eqb (pair_eqb (opt_eqb Z.eqb) Z.eqb) (expand_groups gs) rl
   && forallb (fun g : group => is_none (fst g) || (Nat.eqb (length (snd g)) 1)) gs.
 
-(* What LayerRenderer hands to the merger for a rendered group: merger.add(img, layer.coverage).  For a LimitedLayer
+(* What LayerRenderer hands to the merger for a rendered group, in both render loops (_render_raise_exceptions for
+   on_source_errors: raise, _render_capture_source_errors otherwise): merger.add(img, layer.coverage).  For a LimitedLayer
    that is the coverage made by load_limited_to, GeomCoverage(..., clip=True) - it shadows a coverage of the wrapped
    source -, for a plain source its own coverage with its own clip flag.  Checked on the observed merger layers:
    a limited layer always arrives with a clipping coverage. *)
